@@ -38,6 +38,18 @@ theorem insertIdx_some (s0 s1 o0 o1 S0 S1 : Int) (orow ocol frow fcol : Int × I
   split_ifs at h <;> simp_all <;>
     (obtain ⟨⟨⟨h1, h2⟩, h3, h4⟩, ⟨h5, h6⟩, h7, h8⟩ := h; subst_vars; simp only; omega)
 
+/-- the two slices of `out[out_slice] += field.data[field_slice]` are non-empty, inside their arrays and of equal shape
+(this is what makes the NumPy statement well-formed; the model `insertArr` reads only the slice starts) -/
+theorem insertIdx_wellformed (s0 s1 o0 o1 S0 S1 : Int) (orow ocol frow fcol : Int × Int)
+    (h : Gen.insertIdx s0 s1 o0 o1 S0 S1 = some ((orow, ocol), (frow, fcol))) :
+    (0 ≤ orow.1 ∧ orow.1 < orow.2 ∧ orow.2 ≤ S0) ∧ (0 ≤ ocol.1 ∧ ocol.1 < ocol.2 ∧ ocol.2 ≤ S1) ∧
+    (0 ≤ frow.1 ∧ frow.2 ≤ s0) ∧ (0 ≤ fcol.1 ∧ fcol.2 ≤ s1) ∧
+    frow.2 - frow.1 = orow.2 - orow.1 ∧ fcol.2 - fcol.1 = ocol.2 - ocol.1 := by
+  unfold Gen.insertIdx at h
+  simp only [] at h
+  split_ifs at h <;> simp_all <;>
+    (obtain ⟨⟨⟨h1, h2⟩, h3, h4⟩, ⟨h5, h6⟩, h7, h8⟩ := h; subst_vars; simp only; omega)
+
 /-! ### sums as folds -/
 
 theorem sumList_congr [Add K] [Zero K] {α} (l : List α) (f g : α → K) (h : ∀ x ∈ l, f x = g x) :
@@ -123,6 +135,77 @@ theorem boundary_contains (fs : List (Fld K)) (f : Fld K) (hf : f ∈ fs) :
     b.rmin ≤ f.extent.rmin ∧ f.extent.rmax ≤ b.rmax ∧ b.cmin ≤ f.extent.cmin ∧ f.extent.cmax ≤ b.cmax := by
   simp only [boundaryL_eq]
   exact fold_contains _ _ _ (List.mem_map_of_mem hf)
+
+/-- nonempty list of positive-shape fields: the `boundary` box is a valid extent -/
+theorem boundary_valid (fs : List (Fld K)) (hne : fs ≠ []) (hpos : ∀ f ∈ fs, 0 < f.arr.s0 ∧ 0 < f.arr.s1) :
+    (boundaryL (fs.map Fld.extent)).rmin ≤ (boundaryL (fs.map Fld.extent)).rmax ∧
+    (boundaryL (fs.map Fld.extent)).cmin ≤ (boundaryL (fs.map Fld.extent)).cmax := by
+  obtain ⟨f, hf⟩ := List.exists_mem_of_ne_nil fs hne
+  have h1 := boundary_contains fs f hf
+  have h2 := f.extent_valid (hpos f hf)
+  simp only at h1
+  omega
+
+/-- the merged field occupies exactly the `boundary` box of its members -/
+theorem mergeL_extent [Add K] [Zero K] (fs : List (Fld K)) (hne : fs ≠ [])
+    (hpos : ∀ f ∈ fs, 0 < f.arr.s0 ∧ 0 < f.arr.s1) (p : Fld K) (h : mergeL fs = some p) :
+    p.extent = boundaryL (fs.map Fld.extent) := by
+  have hv := boundary_valid fs hne hpos
+  unfold mergeL at h
+  simp only [] at h
+  generalize boundaryL (fs.map Fld.extent) = b at h hv ⊢
+  cases hs : Gen.mergeShape b.rmin b.rmax b.cmin b.cmax with
+  | none => simp [hs] at h
+  | some shp =>
+    simp only [hs, Option.some.injEq] at h
+    subst h
+    exact merge_box b shp hs hv
+
+/-- a merge is the sum of the embeddings (`Props/C06.merge_emb`) -/
+theorem mergeL_emb [AddZeroClass K] (fs : List (Fld K)) (hne : fs ≠ [])
+    (hpos : ∀ f ∈ fs, 0 < f.arr.s0 ∧ 0 < f.arr.s1) (p : Fld K) (h : mergeL fs = some p) (r c : Int) :
+    p.emb r c = sumList fs (fun f => f.emb r c) := by
+  unfold mergeL at h
+  simp only [] at h
+  generalize hb : boundaryL (fs.map Fld.extent) = b at h
+  have hcont : ∀ f ∈ fs, b.rmin ≤ f.extent.rmin ∧ f.extent.rmax ≤ b.rmax ∧ b.cmin ≤ f.extent.cmin ∧ f.extent.cmax ≤ b.cmax := by
+    intro f hf; have := boundary_contains fs f hf; simp only [hb] at this; exact this
+  have hv : b.rmin ≤ b.rmax ∧ b.cmin ≤ b.cmax := by
+    obtain ⟨f, hf⟩ := List.exists_mem_of_ne_nil fs hne
+    have h1 := hcont f hf
+    have h2 := f.extent_valid (hpos f hf)
+    omega
+  cases hs : Gen.mergeShape b.rmin b.rmax b.cmin b.cmax with
+  | none => simp [hs] at h
+  | some shp =>
+    simp only [hs, Option.some.injEq] at h
+    subst h
+    rw [emb_mk, merge_box b shp hs hv]
+    unfold embAt
+    by_cases hin : b.inb r c = true
+    · rw [if_pos hin]
+      apply sumList_congr
+      intro f hf
+      have hc := hcont f hf
+      have fe : f.emb r c = embAt f.extent f.arr.get r c := rfl
+      rw [fe]; unfold embAt
+      have hg : (decide (f.extent.rmin - b.rmin ≤ r - b.rmin) && decide (r - b.rmin < f.extent.rmax - b.rmin + 1) &&
+          decide (f.extent.cmin - b.cmin ≤ c - b.cmin) && decide (c - b.cmin < f.extent.cmax - b.cmin + 1)) = f.extent.inb r c := by
+        rw [Bool.eq_iff_iff, Extent.inb_iff]; simp only [Bool.and_eq_true, decide_eq_true_eq]; omega
+      have hx : ∀ (x m i : Int), x - m - (i - m) = x - i := by intros; omega
+      simp only [hg, hx]
+    · rw [if_neg hin]
+      have : sumList fs (fun f => f.emb r c) = sumList fs (fun _ => (0 : K)) := by
+        apply sumList_congr
+        intro f hf
+        have hc := hcont f hf
+        have fe : f.emb r c = embAt f.extent f.arr.get r c := rfl
+        rw [fe]; unfold embAt
+        have : f.extent.inb r c = false := by
+          rw [Bool.eq_false_iff]; intro hh; rw [Extent.inb_iff] at hh
+          apply hin; rw [Extent.inb_iff]; omega
+        simp [this]
+      rw [this, sumList_zero]
 
 
 end Lentil
